@@ -32,6 +32,10 @@ def cases(tier, seed):
     n = 150 if tier == "quick" else 5000
     for i in range(n):
         yield {"kind": "ro", "seed": seed, "idx": i, "variant": i % len(VARIANTS)}
+    for i in range(48 if tier == "quick" else 1000):
+        # the same on a store that an interrupted writer / forgetter left damaged (dangling or empty links,
+        # leftover staging files): whatever the reads answer, nothing may be modified
+        yield {"kind": "ro", "seed": seed, "idx": 100000 + i, "variant": i % len(VARIANTS), "damaged": True}
     for i in range(10 if tier == "quick" else 200):
         yield {"kind": "ro_memory", "seed": seed, "idx": i}
     for i in range(10 if tier == "quick" else 200):
@@ -75,12 +79,43 @@ def expect_ro(op, frozen):
     return storeops.Model.apply(frozen, op)
 
 
-def drive_ro(b, refs, vals, frozen, ops, out, label):
+def damage(roots, rng, out):
+    """Leaves a store the way interrupted writers / forgetters do: links whose target is gone, empty links,
+    leftover staging files."""
+    links = []
+    for r in roots:
+        for d, _, files in os.walk(r):
+            links += [os.path.join(d, f) for f in files if f.endswith(".link")]
+    rng.shuffle(links)
+    done = 0
+    for p in links[: max(2, len(links) // 3)]:
+        how = rng.choice(["dangling", "dangling", "empty", "staging"])
+        try:
+            if how == "dangling":
+                target = open(p).read().strip()
+                if os.path.isfile(target):
+                    os.remove(target)
+            elif how == "empty":
+                open(p, "w").close()
+            else:
+                with open(p + ".tmp", "w") as f:
+                    f.write("/nowhere")
+            done += 1
+        except OSError:
+            pass
+    out["obs"]["links_damaged_before_opening_read_only"] += done
+    return done
+
+
+def drive_ro(b, refs, vals, frozen, ops, out, label, judge=True):
     flags = {"skipped": 0, "rejected": 0, "served": 0}
     for step, op in enumerate(ops):
         exp = expect_ro(op, frozen)
         got = storeops.apply_backend(b, refs, vals, op)
         out["obs"]["ro_ops"] += 1
+        if not judge:
+            out["obs"]["ro_ops_on_damaged_stores"] += 1
+            continue
         if exp == "rejected":
             ok = isinstance(got, tuple) and got[0] == "raise" and got[1] == "ValueError"
             flags["rejected"] += ok
@@ -113,6 +148,7 @@ def run_ro(case, out):
             frozen.apply(op)
             storeops.apply_backend(w, refs, vals, op, model_before=before)
         roots = [sc.path("data"), sc.path("meta")]
+        damaged = bool(case.get("damaged")) and damage(roots, rng, out) > 0
         snap = {r: fsobs.snapshot(r) for r in roots}
         audit = fsobs.AuditLog(roots)
         b = open_ro(sc, case["variant"])
@@ -124,9 +160,13 @@ def run_ro(case, out):
                 f, a = rng.choice(live)
                 ops.insert(rng.randrange(len(ops)), ["wmetad", f, a, "log", "m%d" % rng.randrange(3)])
         audit.start()
-        flags = drive_ro(b, refs, vals, frozen, ops, out, "variant %s" % (VARIANTS[case["variant"]],))
+        flags = drive_ro(b, refs, vals, frozen, ops, out, "variant %s%s" % (VARIANTS[case["variant"]], ", damaged store" if damaged else ""),
+                         judge=not damaged)
         audit.stop()
-        judge_untouched(roots, snap, audit, out, "variant %s history %s" % (VARIANTS[case["variant"]], json.dumps(ops)))
+        judge_untouched(roots, snap, audit, out, "variant %s%s history %s" % (
+            VARIANTS[case["variant"]], ", store with dangling / empty links" if damaged else "", json.dumps(ops)))
+        if damaged:
+            return
         if all(flags.values()):
             out["nontrivial"].append("ro:%d:%d" % (case["seed"], case["idx"]))
         out["sample"] = {"variant": list(VARIANTS[case["variant"]]), "prepopulated_entries": len(frozen.d),
@@ -329,6 +369,7 @@ def run_strace(case, out):
             storeops.apply_backend(w, refs, vals, op)
         ops = storeops.gen_history(rng, 30)
         roots = [sc.path("data"), sc.path("meta")]
+        damaged = bool(case.get("damaged")) and damage(roots, rng, out) > 0
         snap = {r: fsobs.snapshot(r) for r in roots}
         script = sc.path("child.py")
         with open(script, "w") as f:
@@ -377,4 +418,5 @@ def run_case(case):
 def conclude(agg):
     return core.first(core.need(agg, "ro_ops", 2000), core.need(agg, "snapshots_compared", 100),
                       core.need(agg, "audit_reads_seen", 100), core.need(agg, "ro_function_calls", 100),
-                      core.need(agg, "null_runner_calls", 20), core.need(agg, "null_storage_calls", 20)), {}
+                      core.need(agg, "null_runner_calls", 20), core.need(agg, "null_storage_calls", 20),
+                      core.need(agg, "links_damaged_before_opening_read_only", 40), core.need(agg, "ro_ops_on_damaged_stores", 500)), {}
